@@ -33,6 +33,7 @@ let handle op args = match op, args with
   | "pshape", [shape; ix] -> res string_of_zlist (predict_shape (parse_ix ix) (zlist_of_string shape))
   | "outax", [ndim; ix] -> res (str_list str_optz) (slice2outax (z_of_string ndim) (parse_ix ix))
   | "canon", [shape; ix] -> res (str_list str_cidx) (canonical_slicers true (parse_ix ix) (zlist_of_string shape))
+  | "ixvalid", [shape; ix] -> res string_of_bool (canonical_valid (parse_ix ix) (zlist_of_string shape))
   | "possl", [a; b; c] -> "ok " ^ str_fsl (positive_slice { f_start = z_of_string a; f_stop = optz b; f_step = z_of_string c })
   | "defs", [h; shape; w; off; o; ix] ->
     res (fun ((segs, rshape), ps) ->
